@@ -16,6 +16,14 @@ point old[0+][1] comes from the [0-] engine, everything of the new [0+] path bey
 point old[0-][-2] from the [0+] engine.  The double swap is run with one dynamics for both
 objects and with two different dynamics (one per ensemble): new paths must be trajectories of
 their own ensemble's dynamics and two swaps must restore both original order sequences.
+
+The two length limits are independent inputs (picked[-1]["ens"]["tis_set"]["maxlength"] for [0-],
+picked[0]["ens"]["tis_set"]["maxlength"] for [0+]): gen_limits runs every ordered pair of a grid around the
+lengths the two new paths need, and limits_oracle states the outcome from the property alone: each new path is
+measured against ITS OWN ensemble's limit; a path that cannot be completed below it rejects the swap (BTX for
+[0-], FTX for [0+]); otherwise the swap is accepted with exactly the complete paths.  Exceptions, exhausted
+engines and answers outside the move's answer domain on such inputs are findings with their input.  The two
+recorded deviations of the code for maxlength([0-]) > maxlength([0+]) are printed as KNOWN-FINDING.
 """
 import importlib.util  # noqa: F401
 import itertools
